@@ -114,6 +114,8 @@ namespace sim
         bool hold_spares_send = false;          // a held descriptor blocks sendfile() only (header goes out, file body stalls)
         std::set<int> blocked;                  // held descriptors that have answered would-block since they were held
         std::map<int, int> fail_next_write;     // descriptor -> errno for its next send()/sendfile()
+        std::set<std::pair<int, int>> oneshot_spent; // (epfd, fd) registered with EPOLLONESHOT that has reported an event
+                                                     // since its last epoll_ctl: disabled, as in the kernel
         std::map<int, int> fail_next_read;      // descriptor -> errno for its next recv() by a gated thread (the connection is dead from then on)
         // all of this is touched by one thread at a time (gate), so no locking
         void reset()
@@ -273,6 +275,15 @@ int epoll_wait(int epfd, struct epoll_event* evs, int maxev, int timeout)
             evs[m++] = e;
         }
         n = m;
+        // a one-shot registration is spent by the event it has just reported (the kernel has disabled it; only the
+        // application's next epoll_ctl arms it again - release() below must not do that on its behalf)
+        for (int i = 0; i < n; ++i)
+        {
+            int fd  = (int)(evs[i].data.u64 & 0xffffffffu);
+            auto it = s.interest.find({ epfd, fd });
+            if (it != s.interest.end() && (it->second.events & EPOLLONESHOT))
+                s.oneshot_spent.insert({ epfd, fd });
+        }
     }
     s.last_events[me]   = n;
     s.last_activity[me] = s.activity;
@@ -300,6 +311,7 @@ int epoll_ctl(int epfd, int op, int fd, struct epoll_event* ev)
             s.interest.erase({ epfd, fd });
         else if (ev)
             s.interest[{ epfd, fd }] = *ev;
+        s.oneshot_spent.erase({ epfd, fd });
     }
     return fn(epfd, op, fd, ev);
 }
@@ -657,7 +669,7 @@ namespace sim
         ++s.activity;
         static auto ctl = real<int (*)(int, int, int, epoll_event*)>("epoll_ctl");
         for (auto& kv : s.interest)
-            if (kv.first.second == fd)
+            if (kv.first.second == fd && !s.oneshot_spent.count(kv.first))
             {
                 epoll_event ev = kv.second;
                 ctl(kv.first.first, EPOLL_CTL_MOD, fd, &ev);
